@@ -449,11 +449,29 @@ class Extractor:
             elif name in BYTES_APPEND and args and self.sink_pred(it, S, args[0], it.op_type(t["args"][0])) and is_u8_sink_type(it.op_type(t["args"][0])):
                 src = args[1]
                 c = const_of(src)
+                typed = self.typed_bytes(S, src, it.op_type(t["args"][1])) if not (isinstance(c, tuple) and c and c[0] == "b") else None
                 if isinstance(c, tuple) and c and c[0] == "b":
                     for b in c[1]:
                         toks.append(("u8", "const", b))
+                elif typed is not None:
+                    toks.extend(typed)
                 else:
                     toks.append(("bytes", stable(src)))
+            elif name in ("core::iter::traits::iterator::Iterator::try_for_each", "core::iter::traits::iterator::Iterator::for_each") and len(args) >= 2 \
+                    and isinstance(args[1], tuple) and args[1][0] == "agg" and isinstance(args[1][1], tuple) and args[1][1][0] == "closure" and args[1][1][1] in self.prog.bodies:
+                # the closure runs once per item: its output grammar, repeated
+                sub = Extractor(self.env, args[1][1][1], "w", None, None, follow=self.follow).run()
+                bodies = {tuple(x for x in p if x[0] not in ("when", "returns", "end", "final", "probe")) for p in ok_paths(sub)}
+                bodies = {b for b in bodies if b}
+                if sub.unmodelled:
+                    self.unmodelled.extend(sub.unmodelled)
+                if len(bodies) == 1:
+                    toks.append(("loop-open",))
+                    toks.extend(next(iter(bodies)))
+                    toks.append(("loop-close",))
+                elif len(bodies) > 1:
+                    self.unmodelled.append((name + " with a closure that writes in more than one way", t["span"]))
+                    toks.append(("unmodelled", name))
             elif name in OTHER_SINK_WRITERS and args and self._is_byte_vec(it.op_type(t["args"][0])) and self.sink_pred(it, S, args[0], it.op_type(t["args"][0])):
                 self.unmodelled.append((name, t["span"]))
                 toks.append(("unmodelled", name))
@@ -503,6 +521,34 @@ class Extractor:
                     if cb.kind != "closure" and not is_derived(cb) and self.follow(cb, t) and self.all_local_calls:
                         toks.append(("call", cb.pretty, tuple(self.render_arg(S, x) for x in args)) + ((tuple(args),) if self.raw_args else ()))
         return toks
+
+    def typed_bytes(self, S, src, ty):
+        """tokens for appending a byte array that is the big/little-endian image of a number, or an array of known elements"""
+        it = self.it
+        try:
+            v = it.deref_value(S, src, 2, ty)
+        except Exception:
+            return None
+        for _ in range(4):
+            while isinstance(v, tuple) and v[0] == "upd":
+                v = v[1]
+            if isinstance(v, tuple) and v[0] == "model" and v[1] == "view" and const_val(v[3]) == 0:
+                v = v[2]
+                continue
+            break
+        if isinstance(v, tuple) and v[0] == "model" and v[1] == "int-bytes" and v[2] in ("be", "le"):
+            order, ity, x = v[2], v[3], v[4]
+            if isinstance(x, tuple) and x[0] == "model" and x[1] == "float-bits":
+                kind = {"u64": "f64", "u32": "f32"}.get(ity)
+                if kind is None:
+                    return None
+                return [self.value_token(kind + order, S, x[2])]
+            if ity == "usize":
+                ity = "u64"
+            return [self.value_token(ity + order if ity not in ("u8", "i8") else ity, S, x)]
+        if isinstance(v, tuple) and v[0] == "agg" and v[1] == "array" and v[3] and len(v[3]) <= 64:
+            return [self.value_token("u8", S, e) for e in v[3]]
+        return None
 
     def render_arg(self, S, x):
         """arguments are rendered by value; a reference to a local aggregate is rendered as &<the aggregate>"""
@@ -592,12 +638,21 @@ def emitted(env, key, entry=None, sink_pred=None, follow=None):
     return Extractor(env, key, "w", entry, sink_pred, follow=follow).run()
 
 
-def reads(env, key, entry=None, follow=None, all_local_calls=False, takes=False, stores=False, ext=False):
+def reads(env, key, entry=None, follow=None, all_local_calls=False, takes=False, stores=False, ext=False, inline=False, inline_pred=None):
     ex = Extractor(env, key, "r", entry, follow=follow)
     ex.all_local_calls = all_local_calls
     ex.track_takes = takes
     ex.track_stores = stores
     ex.track_ext = ext
+    if inline:
+        # helpers that no rule names are followed in place; the call token of a followed helper is dropped from the paths
+        ex.inline = True
+        units = named_units(env.prog)
+        ex.inline_pred = inline_pred or (lambda cb, t: cb.pretty.split("::")[-1] not in units)
+        ex.run()
+        followed = {env.prog.bodies[k].pretty for k in ex.entered}
+        ex.paths = [tuple(t for t in p if not (t[0] == "call" and t[1] in followed)) for p in ex.paths]
+        return ex
     return ex.run()
 
 
